@@ -62,6 +62,7 @@ func c20Property(t *rapid.T, st *Stats) {
 	byVal := map[int]*c20Inc{}
 	ledger := []c20Ledger{}
 	preActive := map[string]int{}
+	inPrune := map[int64]bool{} // goroutines between a pre and a post hook
 	hookErr := ""
 	gateNext := map[string]bool{}
 	gatePreNext := map[string]bool{}
@@ -91,11 +92,13 @@ func c20Property(t *rapid.T, st *Stats) {
 	}
 	defer releaseAll() // also on a failing case: the bubble cannot end with parked goroutines
 	results := make(chan string, 64)
+	events := []string{} // what the hooks saw, moved into the trace at the next quiescent point
 	opts := cache.Opts[string, int]{Age: age, Count: count}
 	if withFn {
 		// the hooks run on prune goroutines, several of which can be active at once: hmu guards the harness state
 		// they share (never held while parked on a gate)
 		opts.PruneFn = func(k string, v int) error {
+			me := goid()
 			hmu.Lock()
 			if gateNext[k] {
 				delete(gateNext, k)
@@ -106,8 +109,11 @@ func c20Property(t *rapid.T, st *Stats) {
 				hmu.Lock()
 			}
 			defer hmu.Unlock()
-			le := c20Ledger{key: k, val: v, ok: !failing[k], async: preActive[k] > 0, at: time.Now(), size: len(live)}
+			// pruning or explicit Delete? decided by the calling goroutine: a prune brackets the callback with its pre and
+			// post hook on the same goroutine (a Delete of the same key can run at the same time on another one)
+			le := c20Ledger{key: k, val: v, ok: !failing[k], async: inPrune[me], at: time.Now(), size: len(live)}
 			ledger = append(ledger, le)
+			events = append(events, fmt.Sprintf("  cleanup callback %s=%d (pruning=%v) returns ok=%v", k, v, le.async, le.ok))
 			if failing[k] {
 				return fmt.Errorf("cleanup of %s refused", k)
 			}
@@ -120,17 +126,21 @@ func c20Property(t *rapid.T, st *Stats) {
 				delete(gatePreNext, k)
 				g := make(chan struct{})
 				gates = append(gates, g)
+				events = append(events, fmt.Sprintf("  pre hook %s=%d parks on gate", k, v))
 				hmu.Unlock()
 				<-g
 				hmu.Lock()
+				events = append(events, fmt.Sprintf("  pre hook %s=%d continues", k, v))
 			}
 			preActive[k]++
+			inPrune[goid()] = true
 			hmu.Unlock()
 		}
 		opts.PrunePostFn = func(k string, v int) {
 			hmu.Lock()
 			defer hmu.Unlock()
 			preActive[k]--
+			delete(inPrune, goid())
 			if preActive[k] < 0 {
 				hookErr = fmt.Sprintf("Post hook for %s without a Pre hook", k)
 			}
@@ -142,20 +152,28 @@ func c20Property(t *rapid.T, st *Stats) {
 	// pre hook across several operations); what it evicts is not an age expiry
 	countPruneMayRun := false
 	seenLedger := 0
+	// overLimitExcused: a cleanup failed while the cache was over its limit; the limit is owed again once the cache has
+	// been back within it
+	overLimitExcused := false
 	bumped := map[int]bool{}
 	// observe compares membership with the model and judges every new ledger entry
 	observe := func(after string) {
 		if hookErr != "" {
 			fail("hooks-unpaired", "%s", hookErr)
 		}
+		countEvicted := []*c20Inc{}
 		for ; seenLedger < len(ledger); seenLedger++ {
 			le := ledger[seenLedger]
 			i := byVal[le.val]
+			if i != nil && le.ok && le.async && count > 0 && (le.size > count || countPruneMayRun) && !(age > 0 && le.at.Sub(i.lastUse) >= age) {
+				countEvicted = append(countEvicted, i) // evicted for the count limit, not for its age
+			}
 			if i == nil || i.key != le.key {
 				fail("cleanup-unknown-value", "cleanup callback ran for %s=%d which was never inserted", le.key, le.val)
 			}
 			if !le.ok {
 				classes["callback-failed"] = true
+				overLimitExcused = true
 				if le.async {
 					bumped[le.val] = true // a failed prune attempt re-dates the entry (documented in the code: retried later)
 				}
@@ -208,9 +226,41 @@ func c20Property(t *rapid.T, st *Stats) {
 				fail("phantom-entry", "after %s: key %s is listed but the model holds no entry for it", after, k)
 			}
 		}
+		// (4b) least recently used first, judged at the eviction itself: an entry evicted for the count limit must not have
+		// been used more recently than an entry that is kept (unless the kept one refused its cleanup)
+		for _, x := range countEvicted {
+			if live[x.key] == x || x.exempt {
+				continue
+			}
+			for _, y := range live {
+				if y.lastUse.Before(x.lastUse) && !failing[y.key] && !bumped[y.val] && got[y.key] {
+					fail("evicted-not-lru", "after %s: %s=%d (last used %v ago) was evicted for the count limit while %s=%d (last used %v ago) is kept", after, x.key, x.val, time.Since(x.lastUse), y.key, y.val, time.Since(y.lastUse))
+				}
+			}
+		}
+		// (5) at every quiescent point: as long as cleanups succeed, insertions beyond the limit have been followed by
+		// pruning back to the limit (not only when the next insertion comes along)
+		if count > 0 && withFn && len(gates) == 0 && inflight == 0 {
+			anyFail := false
+			for k2 := range live {
+				if failing[k2] {
+					anyFail = true
+				}
+			}
+			switch {
+			case len(l) <= count:
+				overLimitExcused = false
+			case !anyFail && !overLimitExcused:
+				fail("limit-not-enforced", "after %s and quiescence the cache holds %d entries, Count is %d, and no cleanup has failed since it was last within the limit", after, len(l), count)
+			}
+		}
 	}
 	settle := func(after string) {
 		synctest.Wait()
+		hmu.Lock()
+		trace = append(trace, events...)
+		events = events[:0]
+		hmu.Unlock()
 		for {
 			select {
 			case r := <-results:
@@ -344,8 +394,12 @@ func c20Property(t *rapid.T, st *Stats) {
 			}
 			j := rapid.IntRange(0, len(gates)-1).Draw(t, "gate")
 			trace = append(trace, fmt.Sprintf("release gate %d of %d", j, len(gates)))
-			close(gates[j])
+			// the released goroutine may park on another gate straight away: update the list before it can run
+			hmu.Lock()
+			g := gates[j]
 			gates = append(gates[:j], gates[j+1:]...)
+			hmu.Unlock()
+			close(g)
 			settle("release")
 		},
 		"gatePre": func(t *rapid.T) {
